@@ -50,11 +50,23 @@ def run(ctx):
             n = rnd.choice([3, 4, 4, 5])
             fam_d.append({'K': gen.rand_kripke(rnd, n), 'f': ('A', g), 'naming': rnd.choice(['int', 'str', 'tuple']),
                           'shuf': rnd.randrange(1 << 30)})
-    fam_e = [dict(c, mode='text') for c in gen.samp(rnd, fam_a, 600 if q else 10000)]
-    for fam in (fam_a, fam_b, fam_c, fam_d, fam_e):
+    # n-ary and/or (arity 3-4)
+    temporal = [g for g in gen.path_un(M0) + gen.path_bi(M0) if g[0] in 'XFGUR']
+    temporal += [('not', g) for g in temporal[:10]] + [(o, g) for o in 'XFG' for g in temporal[:6]]
+    fam_n = []
+    for _ in range(1200 if q else 30000):
+        ops = [rnd.choice(temporal) if rnd.random() < 0.6 else rnd.choice(M0 + [TR, FA]) for _ in range(rnd.choice([3, 3, 4]))]
+        g = (rnd.choice(['and', 'or']),) + tuple(ops)
+        if rnd.random() < 0.2:
+            g = (rnd.choice(['not', 'X', 'F', 'G']), g)
+        K = rnd.choice(scope3)
+        if gen.temporal_count(g) <= 4:
+            fam_n.append({'K': K, 'f': ('A', g), 'cert': 4 if K['n'] <= 2 else 5})
+    fam_e = [dict(c, mode='text') for c in gen.samp(rnd, fam_a + fam_n, 600 if q else 10000)]
+    for fam in (fam_a, fam_b, fam_c, fam_d, fam_e, fam_n):
         for c in fam:
             c['logic'] = 'LTL'
-    events, bad = mcfam.run_families(ctx, [('scope2', fam_a), ('catalogue3', fam_b), ('deep', fam_c), ('random', fam_d),
+    events, bad = mcfam.run_families(ctx, [('scope2', fam_a), ('catalogue3', fam_b), ('deep', fam_c), ('nary', fam_n), ('random', fam_d),
                                            ('text', fam_e)])
 
 
